@@ -11,11 +11,11 @@ EXPLICITS = [U, dict(U, nj="4"), dict(U, b="thr"), dict(U, b="proc"), dict(U, pf
              dict(U, mm="w+", tf="/tmp/y")]
 
 
-def cfg(name, frames, maxdepth, maxlen, gen, defb="proc", procavail=True):
+def cfg(name, frames, maxdepth, maxlen, gen, defb="proc", procavail=True, loose=False):
     path = os.path.join(common.VERIF, "out", "cfg", "CS_%s.cfg" % name)
-    lines = ["CONSTANTS", "  Threads = {1, 2}", "  Frames <- %s" % frames, "  Explicits <- ExplicitsA", "  MaxDepth = %d" % maxdepth, "  MaxLen = %d" % maxlen, "  Gen = %s" % tlc.tla(gen), '  DefB = "%s"' % defb, "  ProcAvail = %s" % tlc.tla(procavail)]
+    lines = ["CONSTANTS", "  Threads = {1, 2}", "  Frames <- %s" % frames, "  Explicits <- ExplicitsA", "  MaxDepth = %d" % maxdepth, "  MaxLen = %d" % maxlen, "  Gen = %s" % tlc.tla(gen), '  DefB = "%s"' % defb, "  ProcAvail = %s" % tlc.tla(procavail), "  Loose = %s" % tlc.tla(loose)]
     if gen: lines += ["INIT Init", "NEXT Next", "CONSTRAINT Emit"]
-    else: lines += ["SPECIFICATION Spec", "INVARIANT SharedMemIsThreads", "INVARIANT ExplicitBackendWins", "INVARIANT PreferIsAHint", "PROPERTY Isolated", "PROPERTY Restored", "VIEW View"]
+    else: lines += ["SPECIFICATION Spec", "INVARIANT SharedMemIsThreads", "INVARIANT ExplicitBackendWins", "INVARIANT PreferIsAHint", "PROPERTY Isolated", "PROPERTY Restored", "PROPERTY RestoredAtExit", "VIEW View"]
     lines.append("CHECK_DEADLOCK FALSE")
     os.makedirs(os.path.dirname(path), exist_ok=True); open(path, "w").write("\n".join(lines) + "\n")
     return path
@@ -63,6 +63,14 @@ def body(c):
     pn += tlc.printed_json(r)
     c.extra["programs_no_process_backend"] = len(pn)
     if len(pn) > (250 if c.quick else 5000): pn = rng.sample(pn, 250 if c.quick else 5000)
+    # configurations installed without a with block inside with blocks (parallel_backend(...) as a plain statement)
+    c.model_check("ConfigScope[configurations installed without a with block]", "MCConfigScope", cfg("mcl", "FramesC", 2 if c.quick else 3, 0, False, loose=True), workers=16, timeout=600)
+    r = tlc.run("MCConfigScope", cfg("siml", "FramesA", 4, 6 if c.quick else 9, True, loose=True), simulate="num=%d" % (150 if c.quick else 3000), depth=8 if c.quick else 13, seed=c.seed + 29, workers=1, timeout=900)
+    c.add_tlc("ConfigScope-simulate[loose configurations]", r)
+    pl = [p for p in tlc.printed_json(r) if any(a["act"]["op"] == "install" for a in p)]
+    c.extra["programs_with_loose_configurations"] = len(pl)
+    if len(pl) > (150 if c.quick else 3000): pl = rng.sample(pl, 150 if c.quick else 3000)
+    allp = allp + pl
     base = common.scratch("c17")
     nw = 14
     jobs = [(base, k, allp[k::nw]) for k in range(nw)] + [(base, nw + k, pt[k::4], "thr") for k in range(4)] + [(base, nw + 4 + k, pn[k::3], "nomp") for k in range(3)]
@@ -73,7 +81,7 @@ def body(c):
         ps = b_k_ps[2]
         for prog, r in zip(ps, res):
             c.evaluations += 1
-            acts = [[a["act"]["op"], a["act"]["t"]] + ([{kk: vv for kk, vv in a["act"]["f"].items() if vv != "U"}] if a["act"]["op"] in ("enter", "fail_enter") else [a["act"]["how"]]) for a in prog]
+            acts = [[a["act"]["op"], a["act"]["t"]] + ([{kk: vv for kk, vv in a["act"]["f"].items() if vv != "U"}] if a["act"]["op"] in ("enter", "fail_enter", "install") else [a["act"]["how"]]) for a in prog]
             c.nontrivial.add(json.dumps(acts, sort_keys=True))
             for pb in r["problems"]:
                 key = {"default_backend": (b_k_ps[3] if len(b_k_ps) > 3 else "proc"), "setting": KEYN.get(pb.get("key"), pb.get("kind")), "thread_forced_to_threads": bool(pb.get("forced_threads")), "got": pb.get("got"), "program": acts, "step": pb.get("step"),
